@@ -182,43 +182,46 @@ def exec_exact(rec):
     if rec.get('lin'):
         kw, facc, fenv, fs = _env(bv, Bv, rec['fields_v'], attrs)
         accs = {'v': acc_v, 'f': facc}
-        F = rec['lin']
-        S = fem.term_scale(F, 1, Bv['sphi'], fs) * Bv['sdx']
+        F, Fi = rec['lin'], rec.get('lin_im')
+        ldtype = np.complex128 if Fi else np.float64
         prm = {k: int(v) for k, v in rec.get('params', {}).items()}
-        form = LinearForm(fem.linear_callable(F, accs))
+        form = LinearForm(fem.linear_callable(F, accs, Fi), dtype=ldtype)
 
         def run():
             out = {'b': form.assemble(bv, **dict(kw), **prm)}
             out['coo'] = form.elemental(bv, **dict(kw), **prm) if rec.get('elemental') else None
             out['alts'] = [form.assemble(bv, **dict(k2), **prm) for k2 in _alts_kw(bv, rec['fields_v'], kw)]
-            fun = Functional(fem.functional_callable(F, accs, None, 'vh'))
+            fun = Functional(fem.functional_callable(F, accs, None, 'vh', Fi), dtype=ldtype)
             out['pairs'] = [fun.assemble(bv, vh=bv.interpolate(np.array(v, dtype=np.float64)), **dict(kw), **prm)
                             for v in rec.get('lpairs', [])]
             return out
         out, err = guarded(run, 60)
-        ev = {'a': 'Lin', 'err': err, 'Bv': Bv, 'env': {'fld': fenv, 'prm': prm}, 'F': F, 'S': int(S), 'exact': 1,
-              'b': [], 'coo': [], 'alts': [], 'pairs': []}
-        if not err:
-            ok = True
-            b = _ints(out['b'], S)
-            ok &= b is not None
-            ev['b'] = b or []
-            if out['coo'] is not None:
-                c = out['coo']
-                vals = _ints(np.asarray(c.data), S)
-                ok &= vals is not None
-                ev['coo'] = [[int(r) + 1, int(x)] for r, x in zip(c.indices[0], vals or [0] * len(c.data))]
-            for b2 in out['alts']:
-                bi = _ints(b2, S)
-                ok &= bi is not None
-                ev['alts'].append(bi or [])
-            for v, s in zip(rec.get('lpairs', []), out['pairs']):
-                fem.guard_sum(ev['b'], max(map(abs, v), default=0))
-                si = _ints(s, S)
-                ok &= si is not None
-                ev['pairs'].append({'v': [int(x) for x in v], 's': int(si or 0)})
-            ev['exact'] = 1 if ok else 0
-        events.append(ev)
+        for part in (('re', 'im') if Fi else ('re',)):
+            term = F if part == 're' else Fi
+            S = fem.term_scale(term, 1, Bv['sphi'], fs) * Bv['sdx']
+            ev = {'a': 'Lin', 'err': err, 'Bv': Bv, 'env': {'fld': fenv, 'prm': prm}, 'F': term, 'S': int(S), 'exact': 1,
+                  'b': [], 'coo': [], 'alts': [], 'pairs': [], 'tags': {'part': part}}
+            if not err:
+                ok = True
+                b = _ints(_part(out['b'], part), S)
+                ok &= b is not None
+                ev['b'] = b or []
+                if out['coo'] is not None:
+                    c = out['coo']
+                    vals = _ints(_part(np.asarray(c.data), part), S)
+                    ok &= vals is not None
+                    ev['coo'] = [[int(r) + 1, int(x)] for r, x in zip(c.indices[0], vals or [0] * len(c.data))]
+                for b2 in out['alts']:
+                    bi = _ints(_part(b2, part), S)
+                    ok &= bi is not None
+                    ev['alts'].append(bi or [])
+                for v, s in zip(rec.get('lpairs', []), out['pairs']):
+                    fem.guard_sum(ev['b'], max(map(abs, v), default=0))
+                    si = _ints(_part(s, part), S)
+                    ok &= si is not None
+                    ev['pairs'].append({'v': [int(x) for x in v], 's': int(si or 0)})
+                ev['exact'] = 1 if ok else 0
+            events.append(ev)
 
     if rec.get('fun'):
         kw, facc, fenv, fs = _env(bv, Bv, rec['fields_v'], attrs)
@@ -404,6 +407,8 @@ def gen_exact(rng, tier):
     if rng.integers(0, 6) == 0:
         rec['bil_im'] = fem.gen_bilinear(rng, ncu, ncv, av_u, ['alpha'], nsum=1)
     rec['lin'] = fem.gen_linear(rng, ncv, av_v, ['alpha'])
+    if rng.integers(0, 6) == 0:
+        rec['lin_im'] = fem.gen_linear(rng, ncv, av_v, ['alpha'], nsum=1)
     rec['fun'] = fem.gen_functional(rng, av_v, ['alpha'])
     rec['elemental'] = int(work <= 1500 and rng.integers(0, 2) == 1)
     npair = 2 if work <= 2000 else 1
@@ -412,7 +417,7 @@ def gen_exact(rng, tier):
     rec['interp_u'] = [{'re': _small_vec(rng, bu.N, -2, 3)}]
     rec['interp_v'] = [{'re': _small_vec(rng, bv.N, -2, 3), 'im': _small_vec(rng, bv.N, -2, 3)}] if rng.integers(0, 3) == 0 else []
     tags = {'kind': kind, 'btype': btype, 'oriented': int('ori' in bs), 'eu': fem.elem_name(eu), 'ev': fem.elem_name(ev), 'tier': 'exact',
-            'rect': int(eu != ev), 'grad': grad, 'complex': int('bil_im' in rec)}
+            'rect': int(eu != ev), 'grad': grad, 'complex': int('bil_im' in rec or 'lin_im' in rec)}
     return rec, tags
 
 
